@@ -32,11 +32,15 @@ func main() {
 		childMain(raw) // this binary re-executed as the stdio peer of a StdioClient
 		return
 	}
+	if arg := os.Getenv(stressEnv); arg != "" {
+		stressMain(arg)
+		return
+	}
 	hk.Main(&hk.Component{Name: "calls", Rule: "fault scripts on mcp.NewClient (JSON and SSE answers), mcp.NewSSEClient and mcp.NewStdioClient (child = this binary re-executed) against scripted raw peers: " +
 		"fault kinds {peer closes the connection, reset (SO_LINGER 0), stall, truncation inside headers / inside the frame, kill -9 / exit / closed stdout of the child, HTTP 500, none} " +
 		"x position in the answer {nothing sent, inside the headers, headers done, inside the data (sampled byte offsets; thorough: every offset), data line complete, frame complete} " +
 		"x framing {Content-Length, chunked, until-EOF, pipe} x {1, 3} calls pending x {0, 1} calls answered before the fault x caller context {none, cancel, deadline, transport timeout}; " +
-		"plus Close() on a live child, Close() right after Initialize (listening stream started afterwards); " +
+		"plus the server half (raw TCP peers against the real Streamable HTTP and legacy SSE servers: handshake, listening stream, a tools/call blocking on its context; every connection then closed / reset; census), Close() on a live child, Close() right after Initialize (listening stream started afterwards), kill -9 + Close() with 64 calls pending (in a re-executed copy: a panic there is an observation, not a crash of the harness); " +
 		"every scenario's call outcomes, pending-table size and resource ledger after Close are diffed against the Lean model; model-free oracles: error within 2 s of the fault, own nonce in every result, " +
 		"census (library goroutines, client connections, fds, children) back at the baseline after Close; a failing scenario is re-run alone up to 3 times and reported only if it fails every time; " +
 		"non-trivial = a scenario in which at least one call returns its own answer and at least one other outcome or resource is decided by the fault",
@@ -337,6 +341,12 @@ func run(c *hk.Ctx) {
 	ts = time.Now()
 	runGetAfterClose(c)
 	timing["getAfterClose"] = time.Since(ts).Seconds()
+	ts = time.Now()
+	runServerSide(c)
+	timing["serverSide"] = time.Since(ts).Seconds()
+	ts = time.Now()
+	runDoubleClose(c)
+	timing["doubleClose"] = time.Since(ts).Seconds()
 	c.SetExtra("timing_s", timing)
 	c.SetExtra("solo_reruns", reruns)
 	c.SetExtra("transient_oracle_failures", noise)
@@ -497,10 +507,8 @@ func runGetAfterClose(c *hk.Ctx) {
 			Input: map[string]any{"script": "Initialize; Close (immediately, GOMAXPROCS=1)", "rounds": rounds}, Observed: map[string]any{"rounds_with_stream_after_close": leaks, "goroutines": witness}})
 	}
 	streams := 0
-	if leaks == rounds {
-		streams = 1
-	} else if leaks > 0 {
-		streams = -1
+	if leaks > 0 {
+		streams = 1 // one round with a stream that outlives Close is the counterexample
 	}
 	c.Emit(map[string]any{"c": "calls.getAfterClose"}, map[string]any{"streams": streams}, true, "getAfterClose")
 	_ = sort.Strings
